@@ -296,8 +296,12 @@ fn selects() -> Vec<Sel> {
 fn queries() -> Vec<Q> {
     let c = conds();
     let mut out: Vec<Q> = selects().into_iter().map(Q::Select).collect();
-    let lits = [Val::Int(1), Val::Int(-5), Val::Null, Val::s("s"), Val::s(""), Val::s("two words"), Val::Int(i32::MAX)];
-    for cond in [None, Some(c[2].clone()), Some(c[3].clone()), Some(c[4].clone()), Some(c[5].clone()), Some(c[6].clone())] {
+    let long255 = "x".repeat(255);
+    let long256 = "y".repeat(256);
+    let long5000 = "z".repeat(5000);
+    let lits = [Val::Int(1), Val::Int(-5), Val::Null, Val::s("s"), Val::s(""), Val::s("two words"), Val::Int(i32::MAX), Val::s(&long255), Val::s(&long256), Val::s(&long5000)];
+    let long_cond = E::bin(Bin::Eq, E::col("y"), E::str(&"w".repeat(300)));
+    for cond in [None, Some(c[2].clone()), Some(c[3].clone()), Some(c[4].clone()), Some(c[5].clone()), Some(c[6].clone()), Some(long_cond)] {
         out.push(Q::Select(Sel::Wrap { from: Box::new(Sel::table("A")), cols: vec![], cond: cond.clone() }));
         out.push(Q::Delete("A".into(), cond.clone()));
         for a in &lits {
